@@ -171,7 +171,7 @@ func c17Task(raw json.RawMessage) TaskResult {
 				}
 			}
 		}
-	case "map-batch":
+	case "map-batch", "map-streams":
 		c17MapBatch(a, &res)
 	case "copy":
 		c17Copy(a, &res)
@@ -287,6 +287,33 @@ func c17MapBatch(a c17Arg, res *TaskResult) {
 			}
 		}
 		c17Check(w, what, res)
+	}
+	if a.Mode == "map-streams" {
+		// every value-size sequence up to MaxLen (with the given prefix) as a source map whose keys are in
+		// ascending digest order (caller-placed digests): the map twin of "all array streams"
+		var rec func(cur []string)
+		rec = func(cur []string) {
+			if len(cur) > 0 {
+				w := NewWorld(a.T)
+				w.Digests = NewDigestTable()
+				w.KeyOf = func(n int) MV { return Scalar{uint64(n)} }
+				setCollisionLimit(255)
+				keys := make([]int, len(cur))
+				for i := range keys {
+					keys[i] = i
+				}
+				classes = cur
+				run(w, keys, "batch map from source with values ["+strings.Join(cur, " ")+"]")
+			}
+			if len(cur) >= a.MaxLen || len(res.Viols) > 3 {
+				return
+			}
+			for _, cl := range []string{"t", "limM", "limM+", "mid"} {
+				rec(append(append([]string{}, cur...), cl))
+			}
+		}
+		rec(a.Prefix)
+		return
 	}
 	// real hashing: n keys
 	for n := a.From; n <= a.To; n++ {
@@ -712,7 +739,7 @@ func c17Negative(a c17Arg, res *TaskResult) {
 
 func init() {
 	RegisterCheck(&CheckDef{ID: "C17", Level: "model_checking", Run: func(r *Run) {
-		r.Rule = "exhaustive enumeration on the real bulk APIs: ALL element streams over {3-byte scalar, quarter-slab string, exactly-at-limit string, one-over-limit string} up to length 8 (thorough 10) through NewArrayFromBatchData, and all streams up to length 6 (thorough 7) over {scalar, at-limit string, inlined array, composite map, wrapped standalone array, inlined map}; every length up to 120 (thorough 600) with uniform prefixes and all tail patterns of the last 4 (thorough 5) elements; NewMapFromBatchData from sources of every size up to 40 (thorough 120) and from every 3-key digest assignment (collision groups), plus unsorted / duplicate / zero-seed streams; CopyNonRefSimple offered <=> single slab of plain elements for every array/map of <= 3 elements over 7 element kinds, standalone and inlined, and after every single mutation of either side the other side's registers are byte-identical; ByteSliceToByteArray for every length 0..L and every estimated-size argument with round trip; every result is checked by content, the in-repo verifiers, the independent structure/size/round-trip/reachability oracles and CheckStorageHealth; states = distinct resulting slab structures"
+		r.Rule = "exhaustive enumeration on the real bulk APIs: ALL element streams over {3-byte scalar, quarter-slab string, exactly-at-limit string, one-over-limit string} up to length 8 (thorough 10) through NewArrayFromBatchData, and all streams up to length 6 (thorough 7) over {scalar, at-limit string, inlined array, composite map, wrapped standalone array, inlined map}; every length up to 120 (thorough 600) with uniform prefixes and all tail patterns of the last 4 (thorough 5) elements; NewMapFromBatchData from every value-size sequence up to length 7 (thorough 9) with keys in digest order, from sources of every size up to 40 (thorough 120) and from every 3-key digest assignment (collision groups), plus unsorted / duplicate / zero-seed streams; CopyNonRefSimple offered <=> single slab of plain elements for every array/map of <= 3 elements over 7 element kinds, standalone and inlined, and after every single mutation of either side the other side's registers are byte-identical; ByteSliceToByteArray for every length 0..L and every estimated-size argument with round trip; every result is checked by content, the in-repo verifiers, the independent structure/size/round-trip/reachability oracles and CheckStorageHealth; states = distinct resulting slab structures"
 		r.Assumptions = []string{
 			"streams longer than the stated bounds (tens of thousands of elements) are outside the enumeration; the tail-pattern family is what decides the under-full last leaf and last index slab",
 		}
@@ -740,6 +767,18 @@ func init() {
 			}
 		}
 		r.RunTaskGroup("array streams with nested children (all, length<=max)", "c17", args)
+		args = nil
+		ml := 7
+		if r.Thorough() {
+			ml = 9
+		}
+		for _, a := range []string{"t", "limM", "limM+", "mid"} {
+			for _, b := range []string{"t", "limM", "limM+", "mid"} {
+				args = append(args, c17Arg{T: T, Mode: "map-streams", Prefix: []string{a, b}, MaxLen: ml})
+			}
+			args = append(args, c17Arg{T: T, Mode: "map-streams", Prefix: []string{a}, MaxLen: 1})
+		}
+		r.RunTaskGroup("map value streams in digest order (all, length<=max)", "c17", args)
 		shards := 16
 		args = nil
 		to, tail := 120, 4
